@@ -235,6 +235,8 @@ theorem ifBranchesT_succ (conds : List Expr) (bodies : List (List Node)) (prev :
   simp only []
   have hb' : ∀ b ∈ bodies ++ [body], NodesTags Tg b := snocT hb hr.1
   split
+  · exact pok_error _
+  split
   · refine pok_bind (P := fun _ => True) (fun _ _ => trivial) fun r2 _ => ?_
     obtain ⟨c, ta⟩ := r2
     simp only []
